@@ -14,6 +14,7 @@
 From Coq Require Import List Arith Bool.
 Import ListNotations.
 From Onet Require Import Net.RouterClose Net.RouterCloseProofs Net.CloseSeq Net.CloseSeqProofs.
+From Onet Require Import Corr.C10 Net.C10CheckProofs.
 
 (* J1-J4 and their companions hold in every reachable state, for both variants *)
 Theorem c10_invariants : forall fx acts s, run fx init acts = Some s -> Inv fx s.
@@ -173,3 +174,40 @@ Example c10_close_example :
             cpc s = KReturned /\ instances s = [] /\ twg s = 0.
 Proof. exact close_example. Qed.
 Print Assumptions c10_close_example.
+
+(* ---- the checker of the correspondence ------------------------------------- *)
+
+(* the boolean checker evaluated on the implementation's observations says exactly what
+   the property says *)
+Theorem c10_checker_router_iff : forall o, check_router o = [] <-> router_prop o.
+Proof. exact check_router_iff. Qed.
+Print Assumptions c10_checker_router_iff.
+
+Theorem c10_checker_server_iff : forall o, check_server o = [] <-> server_prop o.
+Proof. exact check_server_iff. Qed.
+Print Assumptions c10_checker_server_iff.
+
+(* repaired model: in every interleaving, once a Stop has returned and everything has
+   ended, the model's own observation passes the checker; the pinned model fails it on the
+   F11 witnesses, on clause 2 exactly *)
+Theorem c10_model_passes_checker : forall acts s,
+  run true init acts = Some s -> stop_returned s = true -> quiescent s = true ->
+  check_router (obs_of_state s) = [].
+Proof. exact model_passes_checker. Qed.
+Print Assumptions c10_model_passes_checker.
+
+Theorem c10_pinned_fails_checker : forall acts, In acts [witness_out; witness_in; witness_after] ->
+  exists s, run false init acts = Some s /\ check_router (obs_of_state s) = [2].
+Proof. exact pinned_fails_checker. Qed.
+Print Assumptions c10_pinned_fails_checker.
+
+(* every state produced by the script executor the implementation is compared with is a
+   reachable state of the transition system *)
+Theorem c10_exec_reachable : forall fx tcp ms, exists acts, run fx init acts = Some (exec fx tcp ms).
+Proof. exact exec_reachable. Qed.
+Print Assumptions c10_exec_reachable.
+
+Theorem c10_sexec_reachable : forall insts ms,
+  exists acts, crun code_fixed_F41 code_fixed_F42 (cinit insts) acts = Some (sexec insts ms).
+Proof. exact sexec_reachable. Qed.
+Print Assumptions c10_sexec_reachable.
